@@ -512,8 +512,11 @@ def _kills(node):
     return out
 
 
-def reach_ps(cfg, sources, removed=frozenset(), blocked=frozenset(), targets=None, max_states=20000):
-    """Path-sensitive forward reachability.  Returns (reached node ids, witness path to a target or None)."""
+def reach_ps(cfg, sources, removed=frozenset(), blocked=frozenset(), targets=None, max_states=20000, forbid=()):
+    """Path-sensitive forward reachability.  Returns (reached node ids, witness path to a target or None).
+    `forbid`: fact sets {(predicate key, truth)}; a state containing one of them is not explored
+    (paths the obligation exempts, e.g. 'no UTXO known')."""
+    forbid = [frozenset(f) for f in forbid]
     targets = set(targets or ())
     keys = {}
     roots_of = {}
@@ -554,6 +557,8 @@ def reach_ps(cfg, sources, removed=frozenset(), blocked=frozenset(), targets=Non
                         continue  # contradictory
                 else:
                     f2 = facts | {(pk, tv)}
+                    if forbid and any(fb <= f2 for fb in forbid):
+                        continue
             st = (b, f2)
             if st in prev:
                 continue
